@@ -215,3 +215,27 @@ func VerifMap(n int, par int) {
 	}
 	vCover("map")
 }
+
+// VerifMapContextFail: the error contract of MapContext - a failing call is reported, and the
+// context the calls were given (for parallelism > 1 a context of the library's own) is cancelled
+// by then.
+//verif:case C13 quick VerifMapContextFail 1..2 -1..2
+//verif:case C13 thorough VerifMapContextFail 3 2..3
+func VerifMapContextFail(n int, par int) {
+	in := make([]int, n)
+	E := errors.New("E")
+	parent := context.Background()
+	var given context.Context
+	_, err := MapContext(parent, par, in, func(ctx context.Context, x int) (int, error) {
+		vAtomic(func() { given = ctx })
+		vYield()
+		return 0, E
+	})
+	vAssert(err == E, "mapcontext/reports-the-error-a-call-returned")
+	// (with parallelism <= 0 the effective parallelism is GOMAXPROCS, possibly 1: then the calls
+	// run on the caller's goroutine with the caller's context)
+	if par > 1 && n > 1 {
+		vAssert(given != nil && given != parent && given.Err() != nil, "mapcontext/calls-get-a-context-that-is-cancelled-on-failure")
+	}
+	vCover("mapcontext-fail")
+}
